@@ -264,7 +264,7 @@ def render(e):
     if k == "box":
         return f"BoxTrait::new({render(e[1])}).unbox()"
     if k == "snap":
-        return f"*@{render(e[1])}"
+        return f"(*@{render(e[1])})"
     if k == "unbox":
         return f"{e[1]}.unbox()"
     if k == "ife":
@@ -300,7 +300,7 @@ def render_stmts(ss):
             t = f"if {s[1]} {{ {render_stmts(s[2])} }}"
             if s[3]:
                 t += f" else {{ {render_stmts(s[3])} }}"
-            out.append(t)
+            out.append(t + ";")
         elif k == "letbox":
             out.append(f"let {s[1]} = BoxTrait::new({render(s[2])});")
         elif k == "letv":
